@@ -1296,8 +1296,15 @@ def parse_txt(txt, xopts=None, **kwargs):
     # contain themselves through a template; every level starts a fresh template expansion, so
     # the expander's recursion limit does not see it
     depth = getattr(xopts, "parse_depth", None) or 0
-    if depth >= MAX_PARSE_DEPTH:
-        log.warning("tag extensions nested %s deep: content dropped" % depth)
+    # ... and a body that contains itself twice doubles the work with every level: parses
+    # below the first level of nesting share one budget (a list, so that copies of xopts share it)
+    budget = getattr(xopts, "parse_budget", None)
+    if budget is None:
+        budget = xopts.parse_budget = [MAX_NESTED_PARSES]
+    if depth >= 2:
+        budget[0] -= 1
+    if depth >= MAX_PARSE_DEPTH or budget[0] < 0:
+        log.warning("tag extensions nested %s deep / too often: content dropped" % depth)
         return []
     xopts.parse_depth = depth + 1
     try:
@@ -1307,6 +1314,7 @@ def parse_txt(txt, xopts=None, **kwargs):
 
 
 MAX_PARSE_DEPTH = 20
+MAX_NESTED_PARSES = 200
 
 
 def _parse_txt(txt, xopts, uniquifier):
